@@ -3,6 +3,11 @@
 import json, subprocess
 ALL=[f"C{i:02d}" for i in range(1,20)]
 CLAIMED={
+ "C15": dict(
+   text="Every disk size in dense ranges around the smallest accepted size and around three bitmap-block boundaries (plus the sizes the tests and CLI use): layout regions adjacent/inside/equal to an independent computation; fresh image bitmaps exact; fsck; the disk is filled completely through WRITEs, every data block must be owned and none outside, then everything is deleted and the free counts must return.",
+   note="Trusted: fsck and the independent layout arithmetic. Bounds: the size ranges; quick fills only sizes < 1700, +-2 around each boundary and the two large sizes (thorough fills all).",
+   technique="bounded-exhaustive enumeration of configurations (disk sizes) on the implementation with structural oracles",
+   ref="DESIGN.md 4 (C15)"),
  "C13": dict(
    text="For every directory shape of a list (empty, freed slots, block boundaries, long names) every READDIR count in a dense range and a READDIRPLUS dircount x maxcount grid are enumerated with the client loop; completeness, no duplicates, no phantoms, progress, termination, and agreement of ids/handles/attributes with LOOKUP+GETATTR; every returned cookie re-used; a mutation (add / remove listed / remove unlisted) at every page boundary of the multi-page limits.",
    note="Trusted: reference model for ids/handles/attributes. Bounds: shapes up to 70 entries, grids as stated (step 8 away from thresholds), 80-call cap, mutation only between calls (during a call: C03 harness readdirplus-create-remove).",
